@@ -138,17 +138,28 @@ async fn run_case(case: Value) -> Value {
     let (base_rows, inst_rows) = (flat(&base), flat(&inst));
     let inert = sorted_strings(&base_rows) == sorted_strings(&inst_rows);
     let logs = rec.streams.lock().clone();
-    let nds: Vec<NodeData> = nodes.iter().zip(declared).map(|(n, d)| facts::collect_node(n, d, &logs)).collect();
+    let kids: Vec<Vec<usize>> = nodes.iter().map(|n| nodes.iter().filter(|c| c.parent == Some(n.id)).map(|c| c.id).collect()).collect();
+    let nds: Vec<NodeData> = nodes.iter().zip(declared).map(|(n, d)| facts::collect_node(n, d, &logs, &kids[n.id])).collect();
     let any_fetch = nds.iter().any(|n| n.fetch || n.name.contains("Limit"));
     let mut rb = json!({"C28": [], "C29": [], "C30": [], "C53": []});
     for nd in &nds {
         rb["C28"].as_array_mut().unwrap().extend(facts::direct_c28(nd));
         rb["C29"].as_array_mut().unwrap().extend(facts::direct_c29(nd));
         rb["C30"].as_array_mut().unwrap().extend(facts::direct_c30(nd));
+        rb["C30"].as_array_mut().unwrap().extend(facts::direct_c30_fns(nd));
         rb["C53"].as_array_mut().unwrap().extend(facts::direct_c53(nd));
     }
     // logical (DataFrame) schema vs physical root schema, modulo encodings
     let root_schema: Vec<(String, bool)> = plan_b.schema().fields().iter().map(|f| (type_token(f.data_type()), f.is_nullable())).collect();
+    if logical.len() != root_schema.len() {
+        rb["C30"].as_array_mut().unwrap().push(facts::bad(0, -1, "logical", 0));
+    } else {
+        for c in 0..logical.len() {
+            if logical[c].0 != root_schema[c].0 {
+                rb["C30"].as_array_mut().unwrap().push(facts::bad(0, -1, "logical", c + 1));
+            }
+        }
+    }
     let mut njs: Vec<Value> = nds.iter().map(facts::node_json).collect();
     for (j, d) in njs.iter_mut().zip(details) {
         j["detail"] = json!(d);
